@@ -16,6 +16,9 @@ CLAIMS = {
              text="fields complete per field; derived velocity complete over the 2^22 joint space in the thorough tier (boundary+stride quick) and all rate codes", ref="3 C07", note=E1_NOTE),
  "C04": dict(cat="exploration", tech="exhaustive bounded enumeration of the input lattice (per dispatch leaf: bit-walk, full field sweeps, boundary pairs, contexts) on the real decoder vs reference bit-slice decoder; all 2^24 addresses for the text round trip",
              text="every header/address/trailing field of every dispatch leaf compared with an independent bit-slice reference on a closed lattice of inputs; complete over each field up to 13/17 bits and over all 2^24 address texts", ref="3 C04", note=E1_NOTE),
+ "C05": dict(cat="exploration", tech="exhaustive enumeration of the raw CPR input lattice on the real get_position vs independent encoder/decoder: all 2^34 latitude pairs x both orders (thorough), NL at every reachable zone latitude, truth lattice around every boundary, raw longitude space around every m boundary",
+             text="latitude decoding and NL complete over all raw inputs (thorough); longitude and truth checks complete over a boundary lattice (every NL transition, zone boundary, pole, antimeridian +- steps x displacements x both orders)", ref="3 C05",
+             note="trusted: the reference CPR encoder/decoder (closed-formula NL, validated against the published vector and the 58 transition latitudes); NL at exactly +-87 deg accepts both readings; not all 2^68 quadruples are enumerated"),
  "C06": dict(cat="exploration", tech="exhaustive enumeration of all 8192/4096 altitude codes in every carrier x contexts x bit-walk on the real decoder vs Gillham table built from the definition",
              text="complete over the altitude field in every carrying format, under a context alphabet for the surrounding bits", ref="3 C06", note=E1_NOTE),
  "C08": dict(cat="exploration", tech="exhaustive enumeration of every 6-bit code at every character position (and position pairs) in both carriers on the real decoder vs Annex 10 character table",
